@@ -62,4 +62,15 @@ MODULES = {
              params=[('nums', 'S'), ('int(nums)', 'Z', 'int_nums')],
              fragment={'first': 'nums = int(nums)', 'last': 'nums = int(nums)'}, returns=['nums'], ret='Z'),
     ]),
+    # read_bed.track2track: ONE ITERATION of `for line in handle:` -- stop at a track line, else hand the line on
+    # (Proofs/FnFormatsTrack.v: C08_source_track_loop -- the step iterated yields exactly the raw lines Model/Formats.v
+    #  until_track keeps)
+    # mutations that break the tie: `break` -> `continue`; the `yield line` moved before the test; startswith test negated
+    'FnFormatsTrack': ('skgenome/tabio/bedio.py', [
+        dict(name='read_bed.track2track', coq='fn_track_step', py_params=['handle'],
+             loop=dict(first='for line in handle'),
+             carried=[], yields=['S'],
+             params=[('line', 'S'), ("line.startswith('track')", 'B', 'is_track')],
+             ret='Y'),
+    ]),
 }
